@@ -50,6 +50,9 @@ theorem runThunk_inv (t : Thunk) (h : Inv ps (t :: pend) w) : Inv ps pend (runTh
       exact inv_core_eq (InvC.dropPend h' (Or.inl (by simp)) (Or.inr (by simp))) rfl
     · exact tInput_inv (InvC.dropPend h (Or.inl (by simp)) (Or.inr hts)) _
   | waiter id ok =>
+    obtain ⟨ws, rg, e⟩ := resolveWaiter_same id ok w
+    show Inv ps pend (resolveWaiter id ok w)
+    rw [e]
     exact InvC.dropPend h (Or.inl (by simp)) (Or.inl (by simp))
 
 theorem runThunks_inv (l : List Thunk) : ∀ (w : World), Inv ps (l ++ pend) w → Inv ps pend (runThunks l w) := by
@@ -70,6 +73,11 @@ theorem turn_inv (h : Inv ps [] w) : Inv ps [] (turn w) := by
 def okEv (ps : String) (w : World) : Ev → Prop
   | .msg m => okMsg ps w.mySide m ∧ (if w.hasMgr then w.key = true else w.pKey = true)
   | _ => True
+
+theorem connectAs_inv (h : Inv ps [] w) (nm : Option String) : Inv ps [] (connectAs nm w) := by
+  obtain ⟨ws, wn, q, mo, e, hq⟩ := connectAs_same nm w
+  rw [e]
+  exact InvC.mono (k := core w) h (ConnsLe.refl _) hq
 
 theorem step_inv (hps : ps < w.mySide ∨ w.mySide < ps) (h : Inv ps [] w) (e : Ev) (hok : okEv ps w e) :
     Inv ps [] (step w e).1 := by
@@ -110,12 +118,27 @@ theorem step_inv (hps : ps < w.mySide ∨ w.mySide < ps) (h : Inv ps [] w) (e : 
   | connect =>
     simp only [step]
     split
-    · simp only [connect]
-      split
-      · exact h
-      · exact InvC.mono (k := core w) h (ConnsLe.refl _) (fun t ht => List.mem_append.mpr (Or.inl ht))
-      · exact InvC.mono (k := core w) h (ConnsLe.refl _) (fun t ht => List.mem_append.mpr (Or.inl ht))
+    · exact connectAs_inv h none
     · exact h
+  | ep l name =>
+    simp only [step]
+    split
+    · exact h
+    · exact h
+  | econnect k =>
+    simp only [step]
+    split
+    · exact h
+    · split
+      · exact h
+      · exact connectAs_inv h none
+  | elisten k =>
+    simp only [step]
+    split
+    · exact h
+    · split
+      · exact connectAs_inv h _
+      · exact h
   | term i =>
     simp only [step]
     have := tInput_inv (pend := []) h i
@@ -250,12 +273,19 @@ theorem runThunk_mySide (t : Thunk) (v : World) : (runThunk t v).mySide = v.mySi
   | discard c => rfl
   | mgrLost => exact (keep_connectionLost v).mySide
   | stoppedD => exact tInput_mySide _ _ _
-  | waiter id ok => rfl
+  | waiter id ok =>
+    obtain ⟨ws, rg, e⟩ := resolveWaiter_same id ok v
+    show (resolveWaiter id ok v).mySide = v.mySide
+    rw [e]
 
 theorem runThunks_mySide (l : List Thunk) (v : World) : (runThunks l v).mySide = v.mySide := by
   induction l generalizing v with
   | nil => rfl
   | cons t rest ih => simp only [runThunks]; rw [ih, runThunk_mySide]
+
+theorem connectAs_mySide (nm : Option String) (v : World) : (connectAs nm v).mySide = v.mySide := by
+  obtain ⟨ws, wn, q, mo, e, _⟩ := connectAs_same nm v
+  rw [e]
 
 theorem step_mySide (v : World) (e : Ev) : (step v e).1.mySide = v.mySide := by
   cases e with
@@ -316,8 +346,23 @@ theorem step_mySide (v : World) (e : Ev) : (step v e).1.mySide = v.mySide := by
   | connect =>
     simp only [step]
     split
-    · simp only [connect]; split <;> rfl
+    · exact connectAs_mySide none v
     · rfl
+  | ep l name => simp only [step]; split <;> rfl
+  | econnect k =>
+    simp only [step]
+    split
+    · rfl
+    · split
+      · rfl
+      · exact connectAs_mySide none v
+  | elisten k =>
+    simp only [step]
+    split
+    · rfl
+    · split
+      · exact connectAs_mySide _ v
+      · rfl
   | term i =>
     simp only [step]
     have := tInput_mySide termFuel i v
